@@ -34,6 +34,7 @@ const (
 	evDisconnect                     // TCP dropped: Selected/NotSelected -> NotConnected
 	evClose                          // voluntary Close: any state -> NotConnected
 	evT7Timeout                      // T7 NOT-SELECTED dwell expired: NotSelected -> NotConnected (no-op otherwise)
+	evSelectCommit                   // CommitSelected already CAS'd NotSelected -> Selected: evSelectAccepted unless superseded (see step)
 )
 
 // stateChange is one logical E37 transition, reported to the notifier as (prev -> next).
@@ -63,6 +64,7 @@ type supervisor struct {
 	events        chan fsmEvent              // SOLE reader is run(); GUARANTEED command queue (inject blocks, never drops)
 	notify        chan stateChange           // SOLE sender is run(); NON-BLOCKING drop-OLDEST coalescing
 	droppedNotify atomic.Uint64              // count of coalesced/dropped notifications; surfaced via a rate-limited Warn (M4)
+	lostQueued    atomic.Int32               // CommitSelectLost commits whose evSelectLost step() has not processed yet (stale-Select guard)
 	react         func(prev, next ConnState) // for a transition INTO NotConnected: farewell decision + teardown init
 	closeEpoch    atomic.Pointer[epoch]      // set by requestClose(e) BEFORE evClose; the epoch to ensure-tear-down
 	stopCh        chan struct{}              // closed by stop() (from Close, AFTER e.wait()) -> run() exits
@@ -104,6 +106,7 @@ func newSupervisorWithEventsCap(react func(prev, next ConnState), handlers *atom
 		events:        make(chan fsmEvent, eventsCap),
 		notify:        make(chan stateChange, supervisorNotifyCap),
 		droppedNotify: atomic.Uint64{},
+		lostQueued:    atomic.Int32{},
 		react:         react,
 		closeEpoch:    atomic.Pointer[epoch]{},
 		stopCh:        make(chan struct{}),
@@ -200,13 +203,14 @@ func (s *supervisor) CommitConnected() (committed bool) {
 // CommitSelected performs the H2 §7.D synchronous responder commit: a guarded CAS
 // NotSelected -> Selected directly on state, making IsSelected() true immediately (before
 // the responder writes Select.rsp) so data pipelined right after Select.rsp is not spuriously
-// Rejected. On a successful commit it enqueues evSelectAccepted so the supervisor fires the
-// entering-Selected reaction/notify EXACTLY ONCE (deduped on lastReacted, tolerating the
-// pre-committed state). It returns whether THIS call performed the commit; a call when already
-// Selected is a no-op returning false.
+// Rejected. On a successful commit it enqueues evSelectCommit — evSelectAccepted marked as
+// already committed — so the supervisor fires the entering-Selected reaction/notify EXACTLY ONCE
+// (deduped on lastReacted, tolerating the pre-committed state) but does not re-store Selected once
+// a later CommitSelectLost has superseded it (see step). It returns whether THIS call performed the
+// commit; a call when already Selected is a no-op returning false.
 func (s *supervisor) CommitSelected() (committed bool) {
 	if s.state.CompareAndSwap(uint32(NotSelectedState), uint32(SelectedState)) {
-		s.inject(evSelectAccepted)
+		s.inject(evSelectCommit)
 
 		return true
 	}
@@ -224,12 +228,20 @@ func (s *supervisor) CommitSelected() (committed bool) {
 // supervisor fires the entering-NotSelected reaction/notify EXACTLY ONCE (deduped on lastReacted,
 // tolerating the pre-committed state via the evSelectLost-from-NotSelected table entry). It returns
 // whether THIS call performed the commit; a call when not Selected is a no-op returning false.
+//
+// lostQueued is raised BEFORE the CAS (and dropped again if the CAS loses) so that from the instant
+// state reads NotSelected because of this commit until step() processes its evSelectLost, a still-
+// queued earlier evSelectCommit can tell it has been superseded (see step).
 func (s *supervisor) CommitSelectLost() (committed bool) {
+	s.lostQueued.Add(1)
+
 	if s.state.CompareAndSwap(uint32(SelectedState), uint32(NotSelectedState)) {
 		s.inject(evSelectLost)
 
 		return true
 	}
+
+	s.lostQueued.Add(-1)
 
 	return false
 }
@@ -293,8 +305,31 @@ func (s *supervisor) step(ev fsmEvent) {
 	// superseded. ABANDON it: a plain Store of NotSelected here would clobber the valid Selected and
 	// flap the FSM (spuriously Rejecting a legitimately-selected peer's next frame, the efb220b class).
 	// Same supersession rationale as the evT7Timeout CAS below.
+	// (lostQueued pairs each processed evSelectLost with its CommitSelectLost; the >0 guard only
+	// tolerates a raw evSelectLost with no commit behind it, which production never enqueues.)
+	if ev == evSelectLost && s.lostQueued.Load() > 0 {
+		s.lostQueued.Add(-1)
+	}
+
 	if ev == evSelectLost && cur == SelectedState {
 		return
+	}
+
+	// Mirror of NEW-2 for the Select door: evSelectCommit is enqueued ONLY after CommitSelected has
+	// already CAS'd NotSelected -> Selected. If step observes NotSelected while a CommitSelectLost's
+	// evSelectLost is still queued behind this event, that LATER synchronous commit superseded the
+	// Select (a peer that pipelined Select.req -> Deselect.req, both handled on the recv goroutine
+	// before this event was processed) — the event is stale. ABANDON it: NotSelected+evSelectAccepted
+	// is a legal table entry, so applying it would Store Selected and resurrect a session the peer has
+	// deselected (data accepted instead of Reject(4), a re-Select answered "already active", a
+	// Separate.req dropping the link), and the queued evSelectLost would then be abandoned above as
+	// "superseded", making the wrong state permanent. Otherwise the event is exactly evSelectAccepted.
+	if ev == evSelectCommit {
+		if cur == NotSelectedState && s.lostQueued.Load() > 0 {
+			return
+		}
+
+		ev = evSelectAccepted
 	}
 
 	if next, ok := transition(cur, ev); ok {
